@@ -34,6 +34,9 @@ pub struct Case {
     /// 0 prf, 1 prfAlreadyHashed, 2 both
     pub variant: u8,
     pub len: u16,
+    /// length of the second input when it differs from `len`
+    #[serde(default)]
+    pub len2: Option<u16>,
 }
 
 fn pat(seed: u8, len: usize) -> Vec<u8> {
@@ -56,7 +59,7 @@ fn salt(input: &[u8], hashed: bool) -> Vec<u8> {
 }
 
 pub fn cases(tier: Tier) -> Vec<Case> {
-    let lens: Vec<u16> = tier.pick(vec![0, 32, 33], vec![0, 1, 31, 32, 33, 64, 255]);
+    let lens: Vec<u16> = tier.pick(vec![0, 16, 32, 33, 64], vec![0, 1, 16, 31, 32, 33, 64, 255]);
     let mut v = vec![];
     for hmac in 0..3u8 {
         for hmac_mc in [false, true] {
@@ -66,10 +69,10 @@ pub fn cases(tier: Tier) -> Vec<Case> {
                         for ebc in 0..7u8 {
                             for variant in 0..3u8 {
                                 for &len in &lens {
-                                    v.push(Case { hmac, hmac_mc, register: true, ctap: false, uv_required, verified, secrets: 0, eval, ebc, allow: 0, variant, len });
+                                    v.push(Case { hmac, hmac_mc, register: true, ctap: false, uv_required, verified, secrets: 0, eval, ebc, allow: 0, variant, len, len2: None });
                                     for secrets in 0..3u8 {
                                         for allow in 0..3u8 {
-                                            v.push(Case { hmac, hmac_mc, register: false, ctap: false, uv_required, verified, secrets, eval, ebc, allow, variant, len });
+                                            v.push(Case { hmac, hmac_mc, register: false, ctap: false, uv_required, verified, secrets, eval, ebc, allow, variant, len, len2: None });
                                         }
                                     }
                                 }
@@ -79,14 +82,23 @@ pub fn cases(tier: Tier) -> Vec<Case> {
                         for ebc in [0u8, 2, 3] {
                             for secrets in 0..3u8 {
                                 // CTAP2-level registration: `secrets` selects the hmac-secret member {absent, false, true}
-                                v.push(Case { hmac, hmac_mc, register: true, ctap: true, uv_required, verified, secrets, eval, ebc: 0, allow: 0, variant: 1, len: 32 });
+                                v.push(Case { hmac, hmac_mc, register: true, ctap: true, uv_required, verified, secrets, eval, ebc: 0, allow: 0, variant: 1, len: 32, len2: None });
                                 for allow in [0u8, 2] {
-                                    v.push(Case { hmac, hmac_mc, register: false, ctap: true, uv_required, verified, secrets, eval, ebc, allow, variant: 1, len: 32 });
+                                    v.push(Case { hmac, hmac_mc, register: false, ctap: true, uv_required, verified, secrets, eval, ebc, allow, variant: 1, len: 32, len2: None });
                                 }
                             }
                         }
                     }
                 }
+            }
+        }
+    }
+    // pre-hashed inputs whose two lengths differ (sums of 32 or 64 included)
+    for (len, len2) in [(40u16, 24u16), (24, 40), (32, 0), (0, 32), (32, 31), (64, 0), (16, 48)] {
+        for hmac in 1..3u8 {
+            for ebc in [0u8, 2] {
+                v.push(Case { hmac, hmac_mc: true, register: true, ctap: false, uv_required: true, verified: true, secrets: 0, eval: 2, ebc: 0, allow: 0, variant: 1, len, len2: Some(len2) });
+                v.push(Case { hmac, hmac_mc: true, register: false, ctap: false, uv_required: true, verified: true, secrets: 2, eval: 2, ebc, allow: 2, variant: 1, len, len2: Some(len2) });
             }
         }
     }
@@ -110,10 +122,11 @@ struct Inputs {
 
 fn build_inputs(c: &Case) -> Inputs {
     let len = c.len as usize;
-    let mk = |s1: u8, s2: u8, l: usize| -> (Vec<u8>, Option<Vec<u8>>) { (pat(s1, l), (c.eval == 2).then(|| pat(s2, l))) };
+    let l2 = c.len2.map_or(len, usize::from);
+    let mk = |s1: u8, s2: u8, l: usize| -> (Vec<u8>, Option<Vec<u8>>) { (pat(s1, l), (c.eval == 2).then(|| pat(s2, l2))) };
     let eval = (c.eval != 0).then(|| mk(0x11, 0x22, len));
     let entry = mk(0x33, 0x44, len);
-    let entry = (entry.0, Some(pat(0x44, len)).filter(|_| c.eval == 2));
+    let entry = (entry.0, Some(pat(0x44, l2)).filter(|_| c.eval == 2));
     let to_vals = |(f, s): &(Vec<u8>, Option<Vec<u8>>)| PrfVals { first: f.clone().into(), second: s.clone().map(Into::into) };
     let ebc: Option<HashMap<String, PrfVals>> = match c.ebc {
         0 => None,
@@ -138,6 +151,9 @@ fn build_inputs(c: &Case) -> Inputs {
 /// Is the (effective) request malformed in the sense of the statement?
 fn malformed(c: &Case) -> Option<&'static str> {
     let hashed = c.variant == 1;
+    // a pre-hashed input is well formed only if every value it carries is 32 bytes
+    let bad_len = c.len != 32 || (c.eval == 2 && c.len2.is_some_and(|l| l != 32));
+    let c = &Case { len: if bad_len { 0 } else { 32 }, ..c.clone() };
     let has_entries = c.ebc >= 2;
     if c.register {
         if has_entries {
